@@ -301,3 +301,36 @@ func PanicSig(p string) string {
 	}
 	return strings.Join(sig, " <- ")
 }
+
+// RawConv is a converter as extracted by comments.ParseDocs.
+type RawConv struct {
+	Name    string
+	Lines   []string
+	Methods map[string][]string
+}
+
+// ParseDocsResult is the guarded outcome of comments.ParseDocs.
+type ParseDocsResult struct {
+	Convs []RawConv
+	Err   error
+	Panic string
+}
+
+// ParseDocsGuarded calls the public comments.ParseDocs under recover().
+func ParseDocsGuarded(c comments.ParseDocsConfig) (res ParseDocsResult) {
+	defer func() {
+		if p := recover(); p != nil {
+			res.Panic = fmt.Sprintf("%v\n%s", p, debug.Stack())
+		}
+	}()
+	raw, err := comments.ParseDocs(c)
+	res.Err = err
+	for _, rc := range raw {
+		out := RawConv{Name: rc.InterfaceName, Lines: rc.Converter.Lines, Methods: map[string][]string{}}
+		for m, l := range rc.Methods {
+			out.Methods[m] = l.Lines
+		}
+		res.Convs = append(res.Convs, out)
+	}
+	return res
+}
